@@ -374,7 +374,8 @@ def c07_7(ctx, ss):
         for a in phi_alts(arg):
             pass
         ta = txt(arg)
-        ok_alias = ".get(children[0].value, children[0].value)" in ta and "aliases" in ta
+        p0 = ff.params[0]
+        ok_alias = f".get({p0}[0].value, {p0}[0].value)" in ta and "get_aliases(parsed_file)" in ta
     if ok_w and ok_alias:
         ctx.holds("C07.7", k, where(ff, r), "default width = Particle.from_evtgen_name(aliases.get(name, name)).width / GeV", 4)
     elif ok_w:
@@ -383,9 +384,9 @@ def c07_7(ctx, ss):
         ctx.violation("C07.7", k, where(ff, r), f"default width is `{t[:120]}`, not the reference width of the (aliased) particle")
     # the aliases table is the file's own alias table
     pff, pflow = fn(ss, DEC, "get_particle_property_definitions")
-    defs = [d for d in pflow.defs if d.name == "aliases"]
-    if len(defs) == 1 and defs[0].value is not None and txt(defs[0].value) == "get_aliases(parsed_file)":
-        ctx.holds("C07.7", ckey(pff, None, "aliases"), where(pff, defs[0].stmt), "aliases = get_aliases(parsed_file)", 1)
+    defs = [d for d in pflow.defs if d.kind == "assign" and d.value is not None and txt(d.value) == "get_aliases(parsed_file)"]
+    if len(defs) == 1 and arg is not None and "get_aliases(parsed_file)" in txt(arg):
+        ctx.holds("C07.7", ckey(pff, None, "aliases"), where(pff, defs[0].stmt), "the alias table is get_aliases(parsed_file)", 1)
     else:
         ctx.violation("C07.7", ckey(pff, None, "aliases"), where(pff, pff.node), "the alias table used for the default width is not get_aliases(parsed_file)")
 
